@@ -32,6 +32,7 @@ import (
 	dispatchercomp "github.com/noble-assets/orbiter/v2/keeper/component/dispatcher"
 	executorcomp "github.com/noble-assets/orbiter/v2/keeper/component/executor"
 	forwardercomp "github.com/noble-assets/orbiter/v2/keeper/component/forwarder"
+	orbiterkeeper "github.com/noble-assets/orbiter/v2/keeper"
 	orbtypes "github.com/noble-assets/orbiter/v2/types"
 	adaptertypes "github.com/noble-assets/orbiter/v2/types/component/adapter"
 	dispatchertypes "github.com/noble-assets/orbiter/v2/types/component/dispatcher"
@@ -559,6 +560,28 @@ func (s *appState) op(d *driver, f []string) string {
 		return s.msg(d, f[1:])
 	case "msgdry":
 		return s.msgdry(d, f[1:])
+	case "escrowfund":
+		// escrowfund <channelHex> <denomHex> <amount>: coins of a further native denomination escrowed on a channel (as if sent out
+		// earlier), with ICS-20's total-escrow bookkeeping
+		if len(f) < 4 {
+			return "bad-op"
+		}
+		amt, ok := sdkmath.NewIntFromString(f[3])
+		if !ok || !amt.IsPositive() {
+			return "bad-op"
+		}
+		coin := sdk.NewCoin(mustUnhx(f[2]), amt)
+		esc := transfertypes.GetEscrowAddress(transfertypes.PortID, mustUnhx(f[1]))
+		s.noteEscrow(transfertypes.PortID, mustUnhx(f[1]))
+		if err := s.env.App.BankKeeper.MintCoins(s.env.Ctx, transfertypes.ModuleName, sdk.NewCoins(coin)); err != nil {
+			return "err"
+		}
+		if err := s.env.App.BankKeeper.SendCoins(s.env.Ctx, s.env.App.AccountKeeper.GetModuleAddress(transfertypes.ModuleName), esc, sdk.NewCoins(coin)); err != nil {
+			return "err"
+		}
+		cur := s.env.App.TransferKeeper.GetTotalEscrowForDenom(s.env.Ctx, coin.Denom)
+		s.env.App.TransferKeeper.SetTotalEscrowForDenom(s.env.Ctx, cur.Add(coin))
+		return "ok"
 	case "drybegin":
 		if s.savedCtx != nil {
 			return "bad-op"
@@ -807,6 +830,32 @@ func (s *appState) query(d *driver, f []string) (out string) {
 		parts := []string{}
 		for _, p := range r.ActionIds {
 			parts = append(parts, strconv.Itoa(int(p)))
+		}
+		return "res=ok out=[" + strings.Join(parts, ",") + "]"
+	case "ActionIDs", "ProtocolIDs":
+		mq := orbiterkeeper.NewQueryServer(k)
+		m := map[int32]string{}
+		if f[0] == "ActionIDs" {
+			r, err := mq.ActionIDs(ctx, &orbtypes.QueryActionIDsRequest{})
+			if err != nil {
+				return e(err)
+			}
+			m = r.ActionIds
+		} else {
+			r, err := mq.ProtocolIDs(ctx, &orbtypes.QueryProtocolIDsRequest{})
+			if err != nil {
+				return e(err)
+			}
+			m = r.ProtocolIds
+		}
+		ids := make([]int, 0, len(m))
+		for id := range m {
+			ids = append(ids, int(id))
+		}
+		sort.Ints(ids)
+		parts := make([]string, 0, len(ids))
+		for _, id := range ids {
+			parts = append(parts, fmt.Sprintf("%d:%s", id, m[int32(id)]))
 		}
 		return "res=ok out=[" + strings.Join(parts, ",") + "]"
 	case "Params":
